@@ -58,6 +58,8 @@ type jHook struct {
 	Dmax  int64            `json:"dmax,omitempty"`
 	Fixed map[string]int64 `json:"fixed,omitempty"`
 	Seed  uint64           `json:"seed,omitempty"`
+	// Nth: delay the n-th hook invocation (1-based, global order) by the given amount.
+	Nth map[uint64]int64 `json:"nth,omitempty"`
 }
 
 type jScenario struct {
@@ -173,6 +175,9 @@ func (h *hookState) fn(point string) {
 		}
 	case "fixed":
 		d = h.pol.Fixed[point]
+	}
+	if nd, ok := h.pol.Nth[n]; ok {
+		d += nd
 	}
 	if d > 0 {
 		h.sleepers.Add(1)
